@@ -20,9 +20,12 @@ The model follows each `visit_X` as far as *which children it visits, in which o
   arguments, and only if there are no keywords); for every other callee no argument is visited.
 
 What a `Name` / `Attribute` resolves to is an input (`Option Ctor`: one of the four constructors the
-visitor treats specially, or anything else). Not modelled: the `Value`s built, the diagnostics shown
-through `ctx.show_error`, exceptions raised by *calling* `NewType(...)` / `TypeVar(...)` with the
-evaluated arguments (annotations.py:1070, :1097 — a separate finding class of the program search).
+visitor treats specially, or anything else). Not modelled: the `Value`s built and the diagnostics shown
+through `ctx.show_error`. Since fix 0e3888a *calling* `NewType(...)` / `TypeVar(...)` / `ParamSpec(...)`
+with the evaluated arguments no longer raises (annotations.py:1081‥1085 catches and reports, :1095 /
+:1127 reject a non-string name), so `generic_visit` is the only way `_Visitor.visit` raises and the
+model's `raise` outcome is complete: the correspondence run compares *every* exception of the real
+visitor with the model (an exception other than `NotImplementedError` is a disagreement).
 
 The table of supported kinds is a parameter (`sup`); the driver instantiates it with the list
 regenerated from the live class (`Generated/TotalTables.lean : visitorMethods`).
